@@ -639,6 +639,12 @@ def degenerate_specs():
                                 [(f"ds{i}_dt", L.bin_("-", L.bin_("*", n(str(i + 1)), v(f"s{(i + 1) % 6}")), L.bin_("*", v("p"), v(f"s{i}")))) for i in range(6)])),
         ("deg|names-by-case", spec([("X", n("1.0")), ("x", n("2.0"))], [("g_K", n("0.5")), ("G_K", n("1.5"))],
                                    [("i_K", L.bin_("*", v("g_K"), v("x"))), ("I_K", L.bin_("*", v("G_K"), v("X"))), ("dX_dt", L.bin_("-", v("i_K"), v("X"))), ("dx_dt", L.bin_("+", v("I_K"), v("x")))])),
+        # names that are prefixes of each other: "sorted by state name" and "sorted by derivative name" are different orders
+        ("deg|prefix-names", spec([("m", n("0.5")), ("mL", n("1.5")), ("m_", n("2.5"))], [("k", n("0.5")), ("k2", n("1.5"))],
+                                  [("a", L.bin_("*", v("k"), v("m"))), ("a1", L.bin_("+", v("a"), v("mL"))), ("a_", L.bin_("*", v("k2"), v("m_"))),
+                                   ("dm_dt", L.bin_("-", v("a1"), v("m"))), ("dmL_dt", L.bin_("-", v("a_"), L.bin_("*", v("mL"), v("k")))), ("dm__dt", L.bin_("-", v("a"), L.bin_("*", n("0.25"), v("m_"))))])),
+        ("deg|prefix-names-2", spec([("x", n("0.5")), ("x2", n("1.5")), ("x_1", n("2.5")), ("xA", n("-0.5"))], [("p", n("0.5"))],
+                                    [("dx_dt", L.bin_("-", v("x2"), v("x"))), ("dx2_dt", L.bin_("*", v("p"), v("x_1"))), ("dx_1_dt", L.bin_("-", v("xA"), L.bin_("*", n("2"), v("x_1")))), ("dxA_dt", L.bin_("+", v("x"), v("p")))])),
         ("deg|long-names", spec([("membrane_potential_of_the_cell", n("1.0"))], [("a_rather_long_parameter_name_0123456789", n("0.5"))],
                                 [("dmembrane_potential_of_the_cell_dt", L.bin_("*", L.neg(v("a_rather_long_parameter_name_0123456789")), v("membrane_potential_of_the_cell")))])),
     ]
